@@ -43,7 +43,7 @@ func c08fnCase(g *Gen, marker string, names, lines, cls []string) {
 	if p, _ := catch(func() { m, err = gengo.ExtractFunctionStyleCommentTags(marker, names, lines) }); p {
 		g.Emit("C08.fn", in, tag("panic"), append(cls, "PANIC")...)
 	} else if err != nil {
-		g.Emit("C08.fn", in, tag("err", atom(c08errKind(err))), append(cls, "fn-error")...)
+		g.Emit("C08.fn", in, tag("err", c08errS(err)), append(cls, "fn-error")...)
 	} else {
 		g.Emit("C08.fn", in, tag("ok", c08fnOut(m)), cls...)
 	}
@@ -84,7 +84,7 @@ func c08v2(g *Gen) {
 			if p, _ := catch(func() { b, err = gengo.ExtractSingleBoolCommentTag(marker, key, def, lines) }); p {
 				g.Emit("C08.bool2", in, tag("panic"), append(cls, "PANIC")...)
 			} else if err != nil {
-				g.Emit("C08.bool2", in, tag("err", atom(c08errKind(err))), append(cls, "bool-error")...)
+				g.Emit("C08.bool2", in, tag("err", c08errS(err)), append(cls, "bool-error")...)
 			} else {
 				g.Emit("C08.bool2", in, tag("ok", boolS(b)), cls...)
 			}
